@@ -195,6 +195,9 @@ func genC06(r *Rand, tier string, ord int) *Trial {
 	}
 	c.Opts.Threads = 1
 	t.Case = c
+	if r.P(0.15) {
+		t.Params["cli"] = "1" // through the real command line: how -n / -d / --measure / --table reach the library
+	}
 	t.Runs = genRunCfgs(r, 3)
 	return t
 }
@@ -367,8 +370,15 @@ func checkC06(t *Trial, ctx *Ctx) *Failure {
 		ctx.Probe("catchment_replacement_at_capacity", 1)
 	}
 	ooo := false
+	ec := &t.Case
+	if t.Params["cli"] == "1" {
+		if cc, ok := cliCase(&t.Case); ok {
+			ec = cc
+			ctx.Probe("through_command_line", 1)
+		}
+	}
 	for i := range t.Runs {
-		res := ctx.Run(t, i, &t.Case)
+		res := ctx.Run(t, i, ec)
 		if res.Tap != nil && res.Tap.outOfOrder > 0 {
 			ooo = true
 			ctx.Probe("results_arrived_out_of_query_order", 1)
